@@ -44,6 +44,11 @@ CHECKS = [
         "Class strings up to length 5 (thorough 7); `Code` is concretised as an identifier so that every prefix is a complete term (the dangerous case). The pinned lexer violated the property (F4, F5) and was repaired by a fix: commit.",
         "TLA+ lexer machine model checked by TLC (intended design; pinned design refuted); spec->code replay of every class string on the real lexer/parser; suffix family over the repository corpus",
         "DESIGN.md §4 C11"),
+    chk("C09", "model_checking",
+        "spec/ZySources.tla models the loader (dedup map filled before recursion, import sites then optional companion), the explicit-stack DFS cycle detector and the post-order provider order as written; TLC checks them against reachability / transitive closure for every import configuration over a.zy, a.zyi, b.zy (all existence sets; thorough: all 65536 configurations over four files): loaded once, error iff a reachable import target is missing, cycle iff cyclic, reported steps are edges and close up, providers first. Every configuration is materialised as real files with mixed relative, absolute and symlinked spellings and loaded by CompilerSession::graph. Splice semantics: every enumerated ZyCore program with a closed let-bound value is split into importer and provider (plain, with a matching .zyi, with a mismatching .zyi, imported twice) and must equal the single-file prediction of the reference semantics; generativity scenarios (two imports of a sealed type distinct, one bound import shared).",
+        "Four-file configurations are sampled in the quick tier; provider terms are host-operation-free closed values (a provider cannot reach the Builtin package without being parameterised).",
+        "TLA+ implementation-shaped loader/DFS model vs declarative graph oracle model checked by TLC; spec->code replay on real directories; split-vs-inline replay against the reference semantics",
+        "DESIGN.md §4 C09"),
 ]
 
 PENDING_REASON = "check not built yet (planned, see DESIGN.md)"
